@@ -45,6 +45,7 @@ impl C05 {
         corpus.extend(corpus_ecommerce_tokens());
         for l in LANGS {
             prefix_sets.push((l, "exact-prefix:corpus-words".to_string(), Titles::List(corpus.clone())));
+            prefix_sets.push((l, "exact-prefix:one word per compose / reduce table row of every language".to_string(), Titles::List(inventory_word_titles(l))));
             prefix_sets.push((l, format!("exact-prefix:F6-words<={}", tier.pick(6, 7)), Titles::Chars { fam: fam6(l), lo: 1, hi: tier.pick(6, 7) }));
             prefix_sets.push((l, format!("exact-prefix:F4-words<={}", tier.pick(6, 8)), Titles::Chars { fam: fam4(l).into_iter().filter(|c| *c != ' ').collect(), lo: 1, hi: tier.pick(6, 8) }));
             prefix_sets.push((l, format!("exact-prefix:F2-words<={}", tier.pick(5, 6)), Titles::Chars { fam: fam2(l).into_iter().filter(|c| *c != ' ').collect(), lo: 1, hi: tier.pick(5, 6) }));
@@ -232,6 +233,42 @@ impl C05 {
                 cx.fail("C05:exact-prefix-highlight", || {
                     json!({"lang": l.tag(), "ops": ops_json(&recs, None, Some((SENT_LS, SENT_RS)), &[&q]), "expected_highlighted_text": want, "observed_title": got,
                            "unit_test": unit_test_body(l, &recs, None, Some((SENT_LS, SENT_RS)), &[&q], &format!("    // expected exactly one span covering {}; observed {}\n", lit(&want), lit(got)))})
+                });
+            }
+        }
+        // The same clause stated on the text the user sees, with nothing taken from the tokeniser but "it is one word":
+        // a title made of letters and digits only, typed character by character as it is spelt, is highlighted
+        // exactly as far as it was typed.
+        let raw: Vec<char> = title.chars().collect();
+        if raw.is_empty() || !raw.iter().all(|c| c.is_alphanumeric()) {
+            return;
+        }
+        for k in 1..=raw.len() {
+            let q: String = raw[..k].iter().collect();
+            cx.eval();
+            let hits = match cx.search(&mut st, &q) {
+                Ok(h) => h,
+                Err(p) => {
+                    cx.undecided(&p, || format!("lang={} title={:?} query={:?}", l.tag(), title, q));
+                    return;
+                }
+            };
+            let Some((_, got)) = hits.iter().find(|h| h.0 == 10) else {
+                cx.skip_pre();
+                continue;
+            };
+            cx.validated();
+            let ok = match parse_spans(got) {
+                Ok(p) if p.spans.len() == 1 => p.spans[0] == (0, k) && p.plain == raw,
+                _ => false,
+            };
+            if ok {
+                cx.nontrivial();
+                cx.class(if k < raw.len() { "as-spelt:proper-prefix" } else { "as-spelt:whole-word" });
+            } else {
+                cx.fail("C05:exact-prefix-highlight-as-spelt", || {
+                    json!({"lang": l.tag(), "ops": ops_json(&recs, None, Some((SENT_LS, SENT_RS)), &[&q]), "expected_highlighted_text": q, "observed_title": got,
+                           "unit_test": unit_test_body(l, &recs, None, Some((SENT_LS, SENT_RS)), &[&q], &format!("    // expected exactly one span covering the {} typed characters; observed {}\n", k, lit(got)))})
                 });
             }
         }
